@@ -29,3 +29,14 @@ Definition exempt_of (field_names : list string) : list N :=
   map (fun x => N.of_nat (fst x))
       (filter (fun x => negb (in_scope (snd x)) || existsb (String.eqb (snd x)) exempt_fields)
               (combine (seq 0 (length field_names)) field_names)).
+
+(* ---- check-then-register rules (C10; Model/AtomCfg.v) ----
+   The translator proposes one rule per registry field (map or slice) that the struct's own Close method walks, of a
+   struct with a `closed` flag.  Reviewed exemptions: *)
+Definition atom_exempt : list string := [
+  (* connHandshaker.worker appends the finished item to doneq also when the handshaker was closed meanwhile: the item
+     then holds no connection (failed: c = nil; succeeded: closed on the spot) -- nothing is left open by it *)
+  "transport.connHandshaker.doneq+insert"
+].
+Definition atom_rules_checked (field_names : list string) (rules : list (N * N)) : list (N * N) :=
+  filter (fun r => negb (existsb (String.eqb (nth (N.to_nat (fst r)) field_names "")) atom_exempt)) rules.
